@@ -363,18 +363,29 @@ func nativeReplay(spec *Spec, l *loaded, tapes map[string]*engine.Tape, watchdog
 	}
 	tmpl := mustRead(filepath.Join(verifRoot, "gosym/verifapi/replay_test.go.txt"))
 	var pats []string
+	// one replay test per package directory: units that share a directory share the package
+	// (their overlays are merged by load), so the table lists the harnesses of all of them
+	tabs := map[string]*strings.Builder{}
+	var dirs []string
 	for _, u := range spec.Units {
-		var tab strings.Builder
-		for _, h := range u.Harnesses {
-			fmt.Fprintf(&tab, "\t%q: %s,\n", h.Name, h.Name)
+		tab := tabs[u.Dir]
+		if tab == nil {
+			tab = &strings.Builder{}
+			tabs[u.Dir] = tab
+			dirs = append(dirs, u.Dir)
 		}
-		src := strings.Replace(tmpl, "PKGNAME", l.names[u.Dir], 1)
-		src = strings.Replace(src, "HARNESS_TABLE", tab.String(), 1)
+		for _, h := range u.Harnesses {
+			fmt.Fprintf(tab, "\t%q: %s,\n", h.Name, h.Name)
+		}
+	}
+	for _, dir := range dirs {
+		src := strings.Replace(tmpl, "PKGNAME", l.names[dir], 1)
+		src = strings.Replace(src, "HARNESS_TABLE", tabs[dir].String(), 1)
 		n++
 		real := filepath.Join(tmp, fmt.Sprintf("ov%d_test.go", n))
 		os.WriteFile(real, []byte(src), 0o644)
-		repl[filepath.Join(repoRoot, u.Dir, "zz_verif_replay_test.go")] = real
-		pats = append(pats, "./"+u.Dir)
+		repl[filepath.Join(repoRoot, dir, "zz_verif_replay_test.go")] = real
+		pats = append(pats, "./"+dir)
 	}
 	ovb, _ := json.Marshal(map[string]interface{}{"Replace": repl})
 	ovf := filepath.Join(tmp, "overlay.json")
